@@ -110,9 +110,11 @@ def _direct(R, rng, defn, b, cse, ctx):
     names = sorted(defn["state"])
     for pi in range(N_POINTS[ctx["tier"]]):
         pt = gen.point(rng, defn, scale=rng.choice([0.1, 1.0, 1.0, 3.0]))
-        P = gen.spd(rng, len(names))
+        P, p_dtype = gen.typed_cov(rng, gen.spd(rng, len(names)))
         st = ekf.State(**{s: pt[s] for s in defn["state"]})
-        cov = monitors.cov_from_matrix(ekf.Covariance, P, names)
+        cov = monitors.cov_from_matrix(ekf.Covariance, P, names, dtype=p_dtype)
+        if p_dtype:
+            R.stats.inc(f"covariances_handed_over_as_{p_dtype}")
         sd = {s: pt[s] for s in defn["state"]}
         for sname in defn["sensors"]:
             readings = [str(r) for r in ekf.sensor_models[sname].readings]
